@@ -214,7 +214,7 @@ def check_property_file(pid):
         capture_output=True, text=True, cwd=COQ,
     )
     out = p.stdout
-    axioms = sorted(set(re.findall(r"^([A-Za-z_][A-Za-z0-9_.']*)\s*:", out, flags=re.M)))
+    axioms = sorted(set(re.findall(r"^([A-Za-z_][A-Za-z0-9_.']*)\s*:", out, flags=re.M)) - {"Axioms"})
     src = re.sub(r"\(\*.*?\*\)", "", open(pf).read(), flags=re.S)
     theorems = re.findall(r"\b(?:Theorem|Lemma|Example|Corollary)\s+([A-Za-z0-9_']+)", src)
     files, nob = proof_cone(pf)
@@ -298,7 +298,7 @@ class Check:
             trusted_base=[
                 "Coq 8.16.1 kernel (coqc); vm_compute used for finite-domain proofs and Eval cross-checks; no native_compute",
                 "axioms reported by Print Assumptions under the property theorems: " + (", ".join(proof.get("axioms", [])) or "none (closed under the global context)"),
-                "extraction: ExtrOcamlBasic only; Z/positive/nat/Q kept as Coq inductives; 100-line OCaml driver (hex I/O); cross-checked against vm_compute on a sample each run",
+                "extraction: ExtrOcamlBasic + ExtrOcamlZBigInt (Coq positive/Z/N realised by zarith big integers: their Extract Inductive/Extract Constant directives are trusted) + one own directive Extract Constant Z.ggcd (zarith gcd); Q stays the Coq record; 100-line OCaml driver (hex I/O); the extracted binary is cross-checked against vm_compute of the same definitions on a sample each run",
                 "Python harness: generators, exact float->rational conversion, sqrt/pi finishing steps, tolerances",
                 "numpy/scipy/rowan/miniball semantics are modelled (exact arithmetic + rounding allowance), not verified",
             ],
